@@ -1,4 +1,5 @@
 #![cfg_attr(not(test), no_std)]
+#![allow(unexpected_cfgs)]
 #![warn(clippy::pedantic)]
 #![expect(clippy::let_underscore_untyped, clippy::module_name_repetitions)]
 #[cfg(feature = "alloc")]
